@@ -508,6 +508,17 @@ def _traversals(ctx, mdl):
         outs = [o for _, o in applied]
         if len(flat) != len(tree) or not all(any(f is o for o in outs) for f in flat):
             probs.append('flatten_all_paths does not return the transformed paths')
+        else:
+            # the i-th path returned is the i-th element's geometry under THAT element's accumulated matrix (elements may repeat
+            # path data and transform text while their ancestors differ)
+            for i, ((id_, _), f) in enumerate(zip(tree, flat)):
+                m = [mm for mm, o in applied if o is f]
+                exp = expect.get(id_)
+                if exp is not None and not (m and isinstance(m[0], Arr) and m[0].equals(exp)):
+                    probs.append('flatten_all_paths: element %s is returned under another element\'s matrix' % id_)
+                    break
+            if len({id(f) for f in flat}) != len(flat):
+                probs.append('flatten_all_paths returns one path object for several elements')
         return not probs, '; '.join(probs)
     Obligation(ctx, 'R17.3').run(fsax, 'SaxDocument traversal on the same tree', th_sax, judge_sax)
 
